@@ -13,10 +13,29 @@ def main():
     reach.start()
     mod = common.load_prop(prop)
     ctx = common.Ctx(prop, desc, workdir)
-    if "replay" in desc:
-        mod.replay(desc["replay"], ctx)
-    else:
-        mod.run_shard(desc, ctx)
+    try:
+        if "replay" in desc:
+            mod.replay(desc["replay"], ctx)
+        else:
+            mod.run_shard(desc, ctx)
+    except Exception as e:
+        # An exception that escapes from the real verif code while a check drives it through the API is an observation
+        # about verif, not a harness failure: record it as a violation (the rest of this shard is lost). Exceptions
+        # raised by the harness itself (no /repo frame at the raising end) still abort the worker -> inconclusive.
+        from vmon import runner
+        tb = e.__traceback__
+        last = None
+        for fs, lineno in traceback.walk_tb(tb):
+            last = fs.f_code.co_filename
+        where = runner.innermost_repo_frame(tb)
+        if where is None or last is None or not last.startswith((runner.REPO, "/venv", "/usr")):
+            raise
+        ctx.violation("exception-in-verif|%s@%s" % (type(e).__name__, where),
+                      "the real code raised while the check was driving it through its API:\n" +
+                      "".join(traceback.format_exception(type(e), e, tb))[-2500:], {"shard": desc})
+    except SystemExit as e:
+        ctx.violation("error-exit-in-verif-api", "verif called sys.exit(%r) on generated well-formed data while the check was driving it "
+                      "through its API (shard %s)" % (e.code, json.dumps(desc)[:300]), {"shard": desc})
     res = ctx.result()
     res["reached"] = reach.stop()
     for name in getattr(mod, "ANCHOR_FUNCS", []):
